@@ -437,7 +437,7 @@ struct Executor {
 /// Work budget of one run in wall-clock time. Runs take milliseconds, the heaviest a second or two; a
 /// run that is still computing after this long is doing work out of all proportion to its input
 /// (thousands of times the usual). The same seed burns the same time on replay.
-pub const RUN_WALL_BUDGET_S: u64 = 60;
+pub const RUN_WALL_BUDGET_S: u64 = 120;
 
 thread_local! {
     static CPU_COST: std::cell::Cell<(u32, u64)> = std::cell::Cell::new((0, 0));
